@@ -89,6 +89,28 @@ pub fn run(kind: &str, path: &str) -> i32 {
       println!("{}", serde_json::Value::Array(out));
       0
     }
+    // {"cases": [{"cddl": text, "json": text} | {"cddl": text, "cbor": [bytes]}]} -> verdicts
+    "validate" => {
+      let text = std::fs::read_to_string(path).expect("read args");
+      let v: serde_json::Value = serde_json::from_str(&text).expect("json");
+      let mut out = Vec::new();
+      for c in v.get("cases").and_then(|t| t.as_array()).expect("cases") {
+        let cddl_text = c.get("cddl").and_then(|x| x.as_str()).unwrap().to_string();
+        let res = if let Some(j) = c.get("json").and_then(|x| x.as_str()) {
+          let j = j.to_string();
+          std::panic::catch_unwind(move || cddl::validate_json_from_str(&cddl_text, &j, None).is_ok())
+        } else {
+          let b: Vec<u8> = c.get("cbor").and_then(|x| x.as_array()).unwrap().iter().map(|x| x.as_u64().unwrap() as u8).collect();
+          std::panic::catch_unwind(move || cddl::validate_cbor_from_slice(&cddl_text, &b, None).is_ok())
+        };
+        match res {
+          Ok(ok) => out.push(serde_json::json!({"accepted": ok, "panic": false})),
+          Err(_) => out.push(serde_json::json!({"accepted": false, "panic": true})),
+        }
+      }
+      println!("{}", serde_json::Value::Array(out));
+      0
+    }
     // {"rule": name, "texts": [...]} -> does the pest rule match the WHOLE text?
     "parse_rule" => {
       use cddl::pest_parser::Rule;
